@@ -2,7 +2,7 @@
    of /repo (or to a Go standard-library function the models rely on) and the outcome observed
    under recover() and a watchdog: Ok value / Err (an error was returned) / Panic / OutOfFuel
    (no result within the deadline).  The model must predict the class and, when Ok, the value. *)
-From LR Require Export lib.Base lib.DecLib model.DecXBinary model.DecKV model.DecFields model.DecUtf8 model.DecUnquote model.DecWire model.DecPos model.Json model.Formatter model.DecTree.
+From LR Require Export lib.Base lib.DecLib model.DecXBinary model.DecKV model.DecFields model.DecUtf8 model.DecUnquote model.DecWire model.DecPos model.Json model.Formatter model.DecTree model.DecLqlTime.
 
 Local Open Scope Z_scope.
 
@@ -49,6 +49,7 @@ Inductive case :=
 | KFmtParse (s : bytes) (o : outcome (list (nat * bytes)))
 | KFmtEval (qt : list (bytes * bytes)) (fmt msg fields tl : bytes) (o : outcome bytes)
 | KEscape (s : bytes) (o : outcome bytes)
+| KLqlRel (s : bytes) (floatok : bool) (o : outcome unit)
 | KOracleOnly (tag : nat).
 
 Definition check (c : case) : bool :=
@@ -81,6 +82,7 @@ Definition check (c : case) : bool :=
       outcome_eqb bytes_eqb
         (flds <- format_parse fmt ;; format_eval (qlookup qt) (fun _ _ => []) (fun _ _ => []) flds 0 msg fields tl []) o
   | KEscape s o => outcome_eqb bytes_eqb (escape_json s) o
+  | KLqlRel s fok o => outcome_eqb unit_eqb (lql_rel_time (fun _ => fok) s) o
   | KOracleOnly _ => true
   end.
 
